@@ -70,6 +70,15 @@ func parseFloat(s []byte) float64 {
 func parseFloat32(s []byte) float32 {
 	f, err := strconv.ParseFloat(string(s), 32)
 	if err != nil {
+		if ne, ok := err.(*strconv.NumError); ok && ne.Err == strconv.ErrRange {
+			// The tokenizer only guarantees that the value is in range for
+			// a 64-bit float.  Use the largest value which can be
+			// represented (ParseFloat returns an infinity).
+			if f > 0 {
+				return math.MaxFloat32
+			}
+			return -math.MaxFloat32
+		}
 		panic(err)
 	}
 	return float32(f)
